@@ -52,7 +52,7 @@ theorem C19_inv_step (p : Mode) (s : St) (hi : Inv p s) (op : Op) (ht : op.Tame)
 
 /-- **I2 (Model API).** Deleting the active id is refused with FailedPrecondition and changes nothing,
 with or without allow-missing, in every state. -/
-theorem C19_I2_delete_active_refused (s : St) (am : Bool) (ex : Option Mode) :
+theorem C19_I2_delete_active_refused (s : St) (am : Bool) (ex : DOpts) :
     step s (.delete s.active.id am ex) = (s, .err .failedPrecondition) := by
   simp [step, deleteMode]
 
@@ -65,7 +65,7 @@ theorem C19_I2_server_delete_active_refused (s : St) (am : Bool) :
 
 /-- **I2, trace form.** In any reachable state (any state satisfying the invariant), a delete step that succeeds did not name the active mode, and after
 any operation of any run the active mode (once changed) is still stored. -/
-theorem C19_I2_never_deleted (p : Mode) (s : St) (hi : Inv p s) (id : String) (am : Bool) (ex : Option Mode) :
+theorem C19_I2_never_deleted (p : Mode) (s : St) (hi : Inv p s) (id : String) (am : Bool) (ex : DOpts) :
     (∀ r, (step s (.delete id am ex)).2 = .ok r → id ≠ s.active.id) ∧
     (∀ r, (step s (.sDelete id am)).2 = .ok r → id ≠ s.active.id) ∧
     ((step s (.delete id am ex)).1.changed = true →
@@ -133,7 +133,7 @@ The id must not be the id of the configured placeholder active mode `p` (for `Ne
 the RPC rejects anyway): while that placeholder is still active, the code answers FailedPrecondition for it
 (`C19_I2_delete_active_refused`) although no such mode is stored. -/
 theorem C19_delete (p : Mode) (s : St) (hi : Inv p s) (id : String) (hp : id ≠ p.id) (hid : id ≠ "")
-    (habs : find s id = none) (am : Bool) (ex : Option Mode) :
+    (habs : find s id = none) (am : Bool) (ex : DOpts) :
     step s (.delete id am ex) = (s, if am then .ok none else .err .notFound) ∧
     step s (.sDelete id am) = (s, if am then .ok none else .err .notFound) := by
   have hact : id ≠ s.active.id := by
@@ -244,7 +244,7 @@ example : InitOk [mB, mA] ∧ (St.config [mB, mA] (Mode.mk4 "boot" "" false (non
   rcases hx with rfl | rfl <;> rcases hy with rfl | rfl <;> first | rfl | (simp [mA, mB, Mode.mk4] at hxn hyn)
 /-- … on which setting the placeholder's own id active is refused, and deleting it is FailedPrecondition -/
 example : (step (St.config [mB, mA] (Mode.mk4 "boot" "" false (none))) (.setActive (Mode.mk4 "boot" "x" false (none)))).2 = .err .notFound ∧
-    (step (St.config [mB, mA] (Mode.mk4 "boot" "" false (none))) (.delete "boot" true none)).2 = .err .failedPrecondition ∧
+    (step (St.config [mB, mA] (Mode.mk4 "boot" "" false (none))) (.delete "boot" true {})).2 = .err .failedPrecondition ∧
     (step St.init (.setActive (Mode.mk4 "" "x" false (none)))).2 = .err .notFound := by decide
 /-- `InitOk` is needed: the code accepts a configuration with two normal modes -/
 example : ((St.config [mA, { mB with normal := true }] Mode.blank).modes.filter (·.normal)).length = 2 := by decide
@@ -258,7 +258,7 @@ example : ((updateModeUnfixed (run St.init [.add mA, .add mB]) { mB with normal 
   decide
 /-- … and before 6953a94 allow-missing did not help. -/
 example : (deleteModeUnfixed St.init "c" true).2 = .err .notFound := by decide
-example : (step St.init (.delete "c" true none)).2 = .ok none := by decide
+example : (step St.init (.delete "c" true {})).2 = .ok none := by decide
 /-- A schedule in which thread 1 tries to enter while thread 0 is between its read and its write. -/
 example : (crun (cinit St.init fun i => if i = 0 then [.add mA] else if i = 1 then [.add { mB with normal := true }] else [])
     [0, 0, 1, 1, 0, 1, 0, 1, 1, 1, 1]).st.modes.map (·.id) = ["a"] := by decide
